@@ -110,6 +110,17 @@ def main():
                     out.append(rec); continue
                 one(rec, pyc, wr, exe, buf, load_module, write_bytecode_file, obs_value)
                 out.append(rec)
+                # the same payload under the magic PyPy of that level writes (no PyPy here: same code-object layout, another magic):
+                # whatever the writer decides from the magic NUMBER must hold for these too
+                pm = {"3.8": 256, "3.9": 336, "3.10": 384}.get(ver)
+                if pm and name in ("funcs", "posonly") and "written" in rec:
+                    twin = os.path.join(d, "%s-%s-pypytwin.pyc" % (name, ver)); wr2 = os.path.join(d, "%s-%s-pypytwin-w.pyc" % (name, ver))
+                    data = open(pyc, "rb").read()
+                    with open(twin, "wb") as f:
+                        f.write(bytes([pm & 255, pm >> 8]) + data[2:])
+                    rec2 = {"target": "corpus", "source": "pypy-magic-twin-%s/%s" % (ver, name)}
+                    one(rec2, twin, wr2, None, buf, load_module, write_bytecode_file, obs_value)
+                    out.append(rec2)
         # bytecode files of the repository's corpus (versions with no interpreter here included): written back, re-read by xdis,
         # payload compared with the writer model inside Coq
         for i, path in enumerate(req.get("corpus", [])):
